@@ -31,6 +31,8 @@ pub struct CaseFile {
 
 pub struct CaseResult {
     pub violations: Vec<Violation>,
+    /// non-fatal violations of other properties seen on the way
+    pub side: Vec<Violation>,
     pub stats: Stats,
     pub fp: u64,
     pub requests: u32,
@@ -39,6 +41,15 @@ pub struct CaseResult {
 
 pub struct Ctx {
     pub k: usize,
+    /// property whose check is running (None: report every violation, stop at the first)
+    pub focus: Option<&'static str>,
+}
+
+pub fn focus_of(prop: &str) -> Option<&'static str> {
+    const ALL: [&str; 20] = [
+        "C01", "C02", "C03", "C04", "C05", "C06", "C07", "C08", "C09", "C10", "C11", "C12", "C13", "C14", "C15", "C16", "C17", "C18", "C19", "C20",
+    ];
+    ALL.iter().copied().find(|p| *p == prop)
 }
 
 pub fn exec_w1(script: &W1Script, opts: ExecOpts, k: usize) -> RunReport {
@@ -124,12 +135,23 @@ fn compare_traces(prop: &str, oracle: &str, a: &RunReport, b: &RunReport, out: &
     }
 }
 
+/// when set, every case is appended to this file before it is executed (crash attribution)
+pub static TRACE: std::sync::Mutex<Option<std::fs::File>> = std::sync::Mutex::new(None);
+
 pub fn run_case(case: &Case, ctx: &Ctx) -> CaseResult {
+    if let Ok(mut g) = TRACE.lock() {
+        if let Some(f) = g.as_mut() {
+            use std::io::Write;
+            let _ = writeln!(f, "{}", serde_json::to_string(case).unwrap());
+            let _ = f.flush();
+        }
+    }
     match case {
         Case::W1(s) => {
-            let rep = exec_w1(s, ExecOpts::default(), ctx.k);
+            let rep = exec_w1(s, ExecOpts { focus: ctx.focus, ..Default::default() }, ctx.k);
             CaseResult {
                 violations: rep.violations,
+                side: rep.side,
                 stats: rep.stats,
                 fp: rep.fp,
                 requests: rep.requests,
@@ -137,7 +159,7 @@ pub fn run_case(case: &Case, ctx: &Ctx) -> CaseResult {
             }
         }
         Case::W1TwinInfallible(s) => {
-            let a = exec_w1(s, ExecOpts::default(), ctx.k);
+            let a = exec_w1(s, ExecOpts { focus: ctx.focus, ..Default::default() }, ctx.k);
             let mut viol = a.violations.clone();
             let mut stats = a.stats.clone();
             if viol.is_empty() {
@@ -145,6 +167,7 @@ pub fn run_case(case: &Case, ctx: &Ctx) -> CaseResult {
                     s,
                     ExecOpts {
                         infallible_twin: true,
+                        focus: ctx.focus,
                         ..Default::default()
                     },
                     ctx.k,
@@ -160,6 +183,7 @@ pub fn run_case(case: &Case, ctx: &Ctx) -> CaseResult {
             }
             CaseResult {
                 violations: viol,
+                side: a.side.clone(),
                 stats,
                 fp: a.fp,
                 requests: a.requests,
@@ -171,6 +195,7 @@ pub fn run_case(case: &Case, ctx: &Ctx) -> CaseResult {
                 s,
                 ExecOpts {
                     skip_pulses: true,
+                    focus: ctx.focus,
                     ..Default::default()
                 },
                 ctx.k,
@@ -178,7 +203,7 @@ pub fn run_case(case: &Case, ctx: &Ctx) -> CaseResult {
             let mut viol = a.violations.clone();
             let mut stats = a.stats.clone();
             if viol.is_empty() {
-                let b = exec_w1(s, ExecOpts::default(), ctx.k);
+                let b = exec_w1(s, ExecOpts { focus: ctx.focus, ..Default::default() }, ctx.k);
                 stats.hit("twin_pulse_pair");
                 if b.violations.is_empty() {
                     compare_traces("C07", "limit-set-and-removed-changed-behaviour", &a, &b, &mut viol);
@@ -189,6 +214,7 @@ pub fn run_case(case: &Case, ctx: &Ctx) -> CaseResult {
             }
             CaseResult {
                 violations: viol,
+                side: a.side.clone(),
                 stats,
                 fp: a.fp,
                 requests: a.requests,
